@@ -8,6 +8,7 @@ market at 5, another (non-target) market at 6, the simulator at 7, the current s
 extern calls: the oracle answers price queries with num atoms (4 = the price at time 0 of market 5,
 6 = its current price), the clock with int atom 51.
 -/
+import PamsLemmas.EvalNf
 import PamsGen.Code
 import PamsModel.Events
 import PamsLemmas.SrcOrder
@@ -80,9 +81,9 @@ def clipPaths (limit : Bool) (m : Nat) :=
   obsPaths evEnv FUEL "PriceLimitRule.get_limited_price" [.ref 3, .ref 1, .ref m] (plrSt limit)
 
 set_option maxRecDepth 100000
-theorem clipPaths_t : clipPaths true 5 = nf% (clipPaths true 5) := by rfl
-theorem clipPaths_f : clipPaths false 5 = nf% (clipPaths false 5) := by rfl
-theorem clipPaths_other : clipPaths true 6 = nf% (clipPaths true 6) := by rfl
+theorem clipPaths_t : clipPaths true 5 = evalnf% (clipPaths true 5) := by kernel_rfl
+theorem clipPaths_f : clipPaths false 5 = evalnf% (clipPaths false 5) := by kernel_rfl
+theorem clipPaths_other : clipPaths true 6 = evalnf% (clipPaths true 6) := by kernel_rfl
 
 /-- **`get_limited_price` on a limit order of the target market is the model's `clip`** -/
 theorem get_limited_price_correct (p r p0 : K) (x : Nat → Int) (y : Nat → Bool) :
@@ -127,8 +128,8 @@ def plrObs : Except Err (Val × St) → Obs
 def plrHookPaths (limit : Bool) :=
   obsPathsG plrObs evEnv FUEL "PriceLimitRule.hooked_before_order" [.ref 3, .ref 7, .ref 1] (plrSt limit)
 
-theorem plrHookPaths_t : plrHookPaths true = nf% (plrHookPaths true) := by rfl
-theorem plrHookPaths_f : plrHookPaths false = nf% (plrHookPaths false) := by rfl
+theorem plrHookPaths_t : plrHookPaths true = evalnf% (plrHookPaths true) := by kernel_rfl
+theorem plrHookPaths_f : plrHookPaths false = evalnf% (plrHookPaths false) := by kernel_rfl
 
 /-- valuation for the hook: additionally the order's market id (int atom 15) and the activation
 counter (int atom 30) -/
@@ -210,7 +211,7 @@ def thrObs : Except Err (Val × St) → Obs
 
 def thrAfterPaths :=
   obsPathsG thrObs evEnv FUEL "TradingHaltRule.hooked_after_execution" [.ref 3, .ref 7, .ref 9] (thrSt 0 0)
-theorem thrAfterPaths_eq : thrAfterPaths = nf% thrAfterPaths := by rfl
+theorem thrAfterPaths_eq : thrAfterPaths = evalnf% thrAfterPaths := by kernel_rfl
 
 /-- valuation: the fill's market (int atom 95), the target's clock (51), the rule's counters
 (30 activations, 31 started, 32 length), rate (num 3), time-0 price (4), current price (6), the
@@ -243,10 +244,10 @@ theorem thr_after_execution (r p0 p : K) (time acts started length : Nat) (runni
 
 def thrBeforePaths (hm hs : Nat) :=
   obsPathsG thrObs evEnv FUEL "TradingHaltRule.hooked_before_step_for_market" [.ref 3, .ref 7, .ref 5] (thrSt hm hs)
-theorem thrBeforePaths_58 : thrBeforePaths 5 8 = nf% (thrBeforePaths 5 8) := by rfl
-theorem thrBeforePaths_00 : thrBeforePaths 0 0 = nf% (thrBeforePaths 0 0) := by rfl
-theorem thrBeforePaths_68 : thrBeforePaths 6 8 = nf% (thrBeforePaths 6 8) := by rfl
-theorem thrBeforePaths_59 : thrBeforePaths 5 9 = nf% (thrBeforePaths 5 9) := by rfl
+theorem thrBeforePaths_58 : thrBeforePaths 5 8 = evalnf% (thrBeforePaths 5 8) := by kernel_rfl
+theorem thrBeforePaths_00 : thrBeforePaths 0 0 = evalnf% (thrBeforePaths 0 0) := by kernel_rfl
+theorem thrBeforePaths_68 : thrBeforePaths 6 8 = evalnf% (thrBeforePaths 6 8) := by kernel_rfl
+theorem thrBeforePaths_59 : thrBeforePaths 5 9 = evalnf% (thrBeforePaths 5 9) := by kernel_rfl
 
 /-- **`hooked_before_step_for_market` is the model's `haltBeforeStep`**: with a halt of this rule in
 force on the market in the current session, the market and the session resume iff more than
@@ -330,8 +331,8 @@ def omsObs : Except Err (Val × St) → Obs
 
 def omsPaths (limit : Bool) :=
   obsPathsG omsObs evEnv FUEL "OrderMistakeShock.hooked_before_order" [.ref 3, .ref 7, .ref 1] (omsSt limit)
-theorem omsPaths_t : omsPaths true = nf% (omsPaths true) := by rfl
-theorem omsPaths_f : omsPaths false = nf% (omsPaths false) := by rfl
+theorem omsPaths_t : omsPaths true = evalnf% (omsPaths true) := by kernel_rfl
+theorem omsPaths_f : omsPaths false = evalnf% (omsPaths false) := by kernel_rfl
 
 /-- valuation: the order (price num 1, volume int 13, side bool 10, market int 15), the shock (rate
 num 3, lifetime int 34, volume int 35, flag bool 33), the target's current price (num 6) -/
@@ -380,8 +381,8 @@ def callsObs : Except Err (Val × St) → Obs
 
 def fpsPaths (m : Nat) :=
   obsPathsG callsObs evEnv FUEL "FundamentalPriceShock.hooked_before_step_for_market" [.ref 3, .ref 7, .ref m] fpsSt
-theorem fpsPaths_5 : fpsPaths 5 = nf% (fpsPaths 5) := by rfl
-theorem fpsPaths_6 : fpsPaths 6 = nf% (fpsPaths 6) := by rfl
+theorem fpsPaths_5 : fpsPaths 5 = evalnf% (fpsPaths 5) := by kernel_rfl
+theorem fpsPaths_6 : fpsPaths 6 = evalnf% (fpsPaths 6) := by kernel_rfl
 
 def rhoFps (rate : K) (time trigger length : Nat) : Rho K :=
   { i := fun k => if k = 51 then time else if k = 61 then time else if k = 36 then trigger else if k = 37 then length else 0,
